@@ -18,6 +18,7 @@ well-formedness predicates wf / wfT / blockShaped and "the splitter delivers the
 reader on the rewritten input vs Lean makeTable / parseBlocks.
 """
 import io
+import zlib
 import logging
 import warnings
 
@@ -281,6 +282,10 @@ def read_tables(mode, stream, sep):
             warnings.simplefilter("ignore")
             if mode == "read_csv":
                 text = "\n".join(sep.join(r) for r in stream) + "\n"
+                # "ending the block by end of input": half of the texts end without a final newline
+                # (deterministic per text, so a case replays exactly)
+                if zlib.crc32(text.encode("utf-8")) % 2 == 0:
+                    text = text[:-1]
                 seen = [line.rstrip("\n").split(sep) for line in io.StringIO(text)]
                 it = read_csv(io.StringIO(text), sep=sep)
             else:
